@@ -444,6 +444,11 @@ def describe(rec):
             parts.append("%s=%s" % (key, rec[key]))
     if "text" in rec and isinstance(rec["text"], list):
         parts.append("expr=%r" % uncps(rec["text"]))
+    if "argv" in rec and isinstance(rec["argv"], list):
+        parts.append("jp " + " ".join(repr(uncps(a)) for a in rec["argv"]))
+        if rec.get("stdin"):
+            parts.append("stdin=%r" % uncps(rec["stdin"])[:80])
+        return " ".join(parts)
     if "chars" in rec and isinstance(rec["chars"], list):
         parts.append("text=%r at character %s" % (uncps(rec["chars"]), rec.get("k")))
     if "W" in rec and isinstance(rec["W"], list):
